@@ -40,7 +40,10 @@ CHECKS['C02'] = dict(
     text='(a) real calcule_base executed on an uninterpreted vector sort: rotation/translation equivariance and branch agreement from the rotation '
          'axioms; axioms closed under composition and discharged componentwise for elementary rotations; (b) real __call__ on R.ref+t with a frame '
          'contract stub: map(R ref+t)=R map(ref)+t for a free matrix R; (c) real code end-to-end on 1-, 2-, 3-atom references with symbolic random '
-         'draws: distance to the anchor and coordinate along the molecular axis preserved for every argument conformation.',
+         'draws: distance to the anchor and coordinate along the molecular axis preserved for every argument conformation; (d) real calcule_base '
+         'componentwise on a symbolic non-collinear triple P and on R P + T (elementary rotations with symbolic (cos, sin)): frame(R P + T) = R frame(P) '
+         'on every feasible pair of paths; (e) no ordering test between two computed quantities that can be exactly equal inside __call__ '
+         '(rounding would decide it differently for a reference and its moved copy).',
     note=EXM_NOTE + ' SO(3) is reached through generators (Euler decomposition trusted).', design='3/C02',
     technique=SYMX + '; EUF vector-level execution of calcule_base; contract stub discharged in the same check')
 CHECKS['C03'] = dict(
@@ -65,7 +68,7 @@ FORK = ('bounded symbolic execution of the real code: symbolic integers (z3 Int)
 CHECKS['C10'] = dict(
     text='(1) the slice arithmetic of _split_list is read from the source and proved for every list length (unbounded integer) and 1..40 parts; (2) real '
          'residue/protein guessers with symbolic offsets: coverage, ranges, order, same-position pairing as SMT obligations; (3) real '
-         'Alignment.align_molecules with symbolic restraint indices, all hydrogen masks and size orders, optimiser replaced by a recorder; (4) real '
+         'Alignment.align_molecules on two-residue molecules with lists of 0..2 (3) symbolic restraint pairs, all hydrogen masks and size orders, optimiser replaced by a recorder; (4) real '
          'Manager option routing with opaque values and rejection of malformed input before any alignment starts.',
     note='Trusted: z3; Python // and % = z3 div/mod for positive divisors; the recorder stands in for the optimiser (its behaviour is C06/C09).',
     design='3/C10', technique='AST-to-SMT kernel over unbounded integers + ' + FORK)
@@ -85,7 +88,8 @@ CHECKS['C12'] = dict(
 CHECKS['C13'] = dict(
     text='AST-to-SMT kernels decided for every integer in range: five-digit wrap of atom/residue numbers, width/decimals inference of the reader vs the '
          'writer\'s line length, expected line length, count back-fill offset, seek_atom offsets.  CrossHair (bounded refuter) on the real '
-         'parse_atomlist/parse_atomline with symbolic ints and short symbolic names.',
+         'parse_atomlist/parse_atomline with symbolic ints and short symbolic names.  Whole files written and re-read by the real GroFile, contents chosen by '
+         'symbolic integers (number classes, names, velocities, declared/deferred count, box kind, decimals 1..6, non-ASCII titles; all 512 zero/non-zero patterns of the 3x3 box), coverage proved.',
     note='Trusted: z3; Python str.format width semantics; CrossHair results are reported as confirmed / no counterexample within the budget.',
     design='3/C13', technique='AST-to-SMT kernels over the integers + CrossHair symbolic execution of the string code')
 CHECKS['C14'] = dict(
@@ -108,7 +112,7 @@ CHECKS['C16'] = dict(
     note='Trusted: the 12-line reference classification of a raw .itp line (kind, tokens, comment); CrossHair results reported as confirmed / no counterexample within budget.',
     design='3/C16', technique='CrossHair symbolic execution of the real line/section classes + ' + FORK)
 CHECKS['C18'] = dict(
-    text='All operation sequences of length <= 3 (quick) / 4 (thorough) over 10 operations applied to either side of an (original, copy) pair for 7 copy routes, on symbolic '
+    text='All operation sequences of length <= 3 (quick) / 4 (thorough) over 12 operations applied to either side of an (original, copy) pair for 9 copy routes (molecules of 1 residue and of 2+2+1 atoms in 3 residues), on symbolic '
          'coordinates / velocities / displacement / rotation: the untouched side keeps its symbolic terms, view assignments write through, and move / move_to / rotate '
          'satisfy their rigid-body laws as SMT obligations (exact reals).',
     note='Trusted: z3; elementary rotations generate SO(3); isolation is decided by identity of the symbolic terms.', design='3/C18',
